@@ -50,6 +50,31 @@ func run(w *ev.W) {
 		big = true
 	}
 	levelCount := map[int]int64{}
+	// several binaries above the 1 MiB allocation threshold inside ONE value, with
+	// different contents and decreasing / increasing sizes (a reader that recycles a
+	// large buffer would hand out slices that later reads overwrite)
+	{
+		mk := func(n int, seed byte) tbin.Value {
+			b := make([]byte, n)
+			for i := range b {
+				b[i] = byte(i)*seed + seed
+			}
+			return tbin.Value{T: tbin.Binary, B: b}
+		}
+		b1, b2, b3 := mk(1<<20+9, 3), mk(1<<20+1, 5), mk(1<<20+5, 7)
+		for _, v := range []tbin.Value{
+			{T: tbin.Struct, Fields: []tbin.Field{{ID: 1, V: b1}, {ID: 2, V: b2}, {ID: 3, V: b3}}},
+			{T: tbin.List, VT: tbin.Binary, Items: []tbin.Value{b1, b2, b3}},
+			{T: tbin.Map, KT: tbin.Binary, VT: tbin.Binary, Items: []tbin.Value{b2, b1, b3, b2}},
+		} {
+			if w.Own() {
+				levelCount[1]++
+				w.Count("values_with_several_large_binaries", 1)
+				one(w, v)
+				w.Done()
+			}
+		}
+	}
 	tbin.Enumerate(depth, big, func(level int, v tbin.Value) {
 		if !w.Own() {
 			return
@@ -70,10 +95,39 @@ func run(w *ev.W) {
 	}
 }
 
-// One checks a single value (also used by replay).
+// One checks a single value (also used by replay): with the []byte flavour of the
+// binary type and, for values holding a binary, once more with the string flavour.
 func one(w *ev.W, v tbin.Value) {
 	w.Eval(1)
 	w.Nontrivial(1)
+	oneFlavour(w, v, "")
+	if hasBinary(v) {
+		wirex.BinaryAsString = true
+		defer func() { wirex.BinaryAsString = false }()
+		w.Count("string_flavour_values", 1)
+		oneFlavour(w, v, "[string flavour]")
+	}
+}
+
+func hasBinary(v tbin.Value) bool {
+	if v.T == tbin.Binary {
+		return true
+	}
+	for _, f := range v.Fields {
+		if hasBinary(f.V) {
+			return true
+		}
+	}
+	for _, it := range v.Items {
+		if hasBinary(it) {
+			return true
+		}
+	}
+	return (v.T == tbin.List || v.T == tbin.Set) && v.VT == tbin.Binary
+}
+
+func oneFlavour(w0 *ev.W, v tbin.Value, flavour string) {
+	w := &flavW{W: w0, suffix: flavour}
 	ref := tbin.Encode(v)
 	key := v.Key()
 	rep := map[string]string{"value": key, "ref_bytes": short(ref)}
@@ -219,6 +273,16 @@ func without(v tbin.Value, i int) tbin.Value {
 		out.Items = append(append([]tbin.Value{}, v.Items[:i]...), v.Items[i+1:]...)
 	}
 	return out
+}
+
+// flavW tags violations of the string-flavour pass.
+type flavW struct {
+	*ev.W
+	suffix string
+}
+
+func (f *flavW) Violation(sig, detail string, rep interface{}) {
+	f.W.Violation(sig+f.suffix, f.suffix+detail, rep)
 }
 
 // shortReaderAt is a conforming io.ReaderAt (ReadAt fills p or returns an
